@@ -97,8 +97,8 @@ BUF = "one Reader<BufRead>::read_event_into() over a source delivering the rest 
 C02_Q = [
     H("k_elem_split_n8", "ElementParser::feed split at every cut, <=8 bytes, 3 start states", ["end found in second piece"]),
     H("k_pi_split_n8", "PiParser::feed split at every cut, <=8 bytes", ["cut between ? and >"]),
-    H("k_bang_split_n8", "BangType::parse with buffer/chunk split at every cut, <=8 bytes, 3 kinds",
-      ["comment terminator split as --|>", "comment terminator split as -|->", "cdata terminator split as ]|]>", "doctype end in second piece"], cost=9),
+    H("k_bang_split_n7", "BangType::parse with buffer/chunk split at every cut, <=7 bytes, 3 kinds",
+      ["comment terminator split as --|>", "comment terminator split as -|->", "cdata terminator split as ]|]>", "doctype end in second piece"], cost=6),
     H("h2_text_n4", "one XmlSource helper (read_text) on a BufRead delivering <=4 symbolic bytes in 2 pieces (cut symbolic) vs the same helper of the slice source on the same bytes (hooks verif_source)", [], cost=6),
     H("h2_elem_n4", "one XmlSource helper (read_with(ElementParser)) on a BufRead delivering <=4 symbolic bytes in 2 pieces (cut symbolic) vs the same helper of the slice source on the same bytes (hooks verif_source)", [], cost=6),
     H("h2_pi_n4", "one XmlSource helper (read_with(PiParser)) on a BufRead delivering <=4 symbolic bytes in 2 pieces (cut symbolic) vs the same helper of the slice source on the same bytes (hooks verif_source)", [], cost=6),
@@ -107,6 +107,8 @@ C02_Q = [
     H("h2_bom_n4", "one XmlSource helper (remove_utf8_bom) on a BufRead delivering <=4 symbolic bytes in 2 pieces (cut symbolic) vs the same helper of the slice source on the same bytes (hooks verif_source)", [], cost=6),
 ]
 C02_T = [
+    H("k_bang_split_n8", "BangType::parse with buffer/chunk split at every cut, <=8 bytes, 3 kinds",
+      ["comment terminator split as --|>", "comment terminator split as -|->", "cdata terminator split as ]|]>", "doctype end in second piece"], cost=9, timeout_thorough=3600),
     H("k_elem_split_n12", "ElementParser::feed split at every cut, <=12 bytes", []),
     H("k_pi_split_n12", "PiParser::feed split at every cut, <=12 bytes", []),
     H("k_bang_split_n12", "BangType::parse split at every cut, <=12 bytes", [], cost=9, timeout_thorough=5400),
@@ -125,14 +127,17 @@ C02_T = [
 ]
 FLT = "buffered step over a source with a solver-chosen fault (none / Interrupted / one of 6 other error kinds incl. UnexpectedEof, WouldBlock) at each of its first 3 refills, 2 pieces; "
 C18_Q = [
-    H("h18_text_n3", "one XmlSource helper (read_text) on a BufRead delivering <=3 symbolic bytes in 2 pieces, with a solver-chosen fault (none / Interrupted / one of 6 other error kinds) at each of its first 3 refills, vs the slice helper", ["io error delivered"], cost=6),
-    H("h18_elem_n3", "one XmlSource helper (read_with(ElementParser)) on a BufRead delivering <=3 symbolic bytes in 2 pieces, with a solver-chosen fault (none / Interrupted / one of 6 other error kinds) at each of its first 3 refills, vs the slice helper", ["io error delivered"], cost=9, mem_gb=28, gb=22, timeout=1500),
-    H("h18_pi_n3", "one XmlSource helper (read_with(PiParser)) on a BufRead delivering <=3 symbolic bytes in 2 pieces, with a solver-chosen fault (none / Interrupted / one of 6 other error kinds) at each of its first 3 refills, vs the slice helper", ["io error delivered"], cost=9, mem_gb=28, gb=22, timeout=1500),
+    H("h18_text_n3f2", "one XmlSource helper (read_text) on a BufRead delivering <=3 symbolic bytes in 2 pieces, with a solver-chosen fault (none / Interrupted / one of 6 other error kinds) at each of its first 2 refills, vs the slice helper", ["io error delivered"], cost=6),
+    H("h18_elem_n3f2", "one XmlSource helper (read_with(ElementParser)) on a BufRead delivering <=3 symbolic bytes in 2 pieces, with a solver-chosen fault (none / Interrupted / one of 6 other error kinds) at each of its first 2 refills, vs the slice helper", ["io error delivered"], cost=7),
+    H("h18_pi_n3f2", "one XmlSource helper (read_with(PiParser)) on a BufRead delivering <=3 symbolic bytes in 2 pieces, with a solver-chosen fault (none / Interrupted / one of 6 other error kinds) at each of its first 2 refills, vs the slice helper", ["io error delivered"], cost=7),
     H("h18_skipws_n3", "one XmlSource helper (skip_whitespace) on a BufRead delivering <=3 symbolic bytes in 2 pieces, with a solver-chosen fault (none / Interrupted / one of 6 other error kinds) at each of its first 3 refills, vs the slice helper", ["io error delivered"], cost=6),
     H("h18_peek_n3", "one XmlSource helper (peek_one) on a BufRead delivering <=3 symbolic bytes in 2 pieces, with a solver-chosen fault (none / Interrupted / one of 6 other error kinds) at each of its first 3 refills, vs the slice helper", ["io error delivered"], cost=6),
     H("h18_bom_n3", "one XmlSource helper (remove_utf8_bom) on a BufRead delivering <=3 symbolic bytes in 2 pieces, with a solver-chosen fault (none / Interrupted / one of 6 other error kinds) at each of its first 3 refills, vs the slice helper", ["io error delivered"], cost=6),
 ]
 C18_T = [
+    H("h18_text_n3", "one XmlSource helper (read_text) on a BufRead delivering <=3 symbolic bytes in 2 pieces, with a solver-chosen fault (none / Interrupted / one of 6 other error kinds) at each of its first 3 refills, vs the slice helper", ["io error delivered"], cost=6),
+    H("h18_pi_n3", "one XmlSource helper (read_with(PiParser)) on a BufRead delivering <=3 symbolic bytes in 2 pieces, with a solver-chosen fault (none / Interrupted / one of 6 other error kinds) at each of its first 3 refills, vs the slice helper", ["io error delivered"], cost=9, mem_gb=28, gb=22, timeout_thorough=3600),
+    H("h18_elem_n3", "one XmlSource helper (read_with(ElementParser)) on a BufRead delivering <=3 symbolic bytes in 2 pieces, with a solver-chosen fault (none / Interrupted / one of 6 other error kinds) at each of its first 3 refills, vs the slice helper", ["io error delivered"], cost=9, mem_gb=28, gb=22, timeout_thorough=3600),
     H("h18_text_n4", "same, <=4 bytes", ["io error delivered"], cost=9, timeout_thorough=3600, mem_gb=24),
     H("h18_elem_n4", "same, <=4 bytes", ["io error delivered"], cost=9, timeout_thorough=3600, mem_gb=24),
     H("h18_pi_n4", "same, <=4 bytes", ["io error delivered"], cost=9, timeout_thorough=3600, mem_gb=24),
@@ -148,6 +153,8 @@ C10_Q = [
     H("x10_esc_full_1", "escape on every 1-byte ASCII string: table image, forbidden characters absent, borrowed iff unchanged", ["something escaped"], cost=6),
     H("x10_esc_part_1", "partial_escape on every 1-byte ASCII string", ["something escaped"], cost=6),
     H("x10_esc_min_1", "minimal_escape on every 1-byte ASCII string", ["something escaped"], cost=6),
+    H("x10_esc_full_c4", "escape on C4 + every continuation byte (U+0100..U+013F, e.g. U+013C whose low byte is '<'): untouched and borrowed", [], cost=4),
+    H("x10_esc_full_e280", "escape on E2 80 + every continuation byte (U+2000..U+203F, e.g. U+2026 whose low byte is '&'): untouched and borrowed", [], cost=4),
     H("x10_inv_lt", "inverse by composition: unescape('&lt;') (concrete execution)", []),
     H("x10_inv_gt", "unescape('&gt;') (concrete execution)", []),
     H("x10_inv_amp", "unescape('&amp;') (concrete execution)", []),
@@ -174,11 +181,13 @@ C10_T = [
 ATTR = "one Attributes::next() from an arbitrary iterator state (hook verif_with_state; <=2 recorded keys), XML/HTML mode and duplicate checking symbolic, ASCII tag content "
 C11_Q = [
     H("a11_next_n5", ATTR + "<=5 bytes, state Next(o)", ["attribute with value", "duplicate reported"], cost=6),
-    H("a11_skipvalue_n5", ATTR + "<=5 bytes, state SkipValue(o)", ["attribute after a skipped unquoted value"], cost=6),
-    H("a11_skipeq_n8", ATTR + "<=8 bytes, state SkipEqValue(o)", ["attribute after a skipped duplicate"], cost=8),
+    H("a11_skipvalue_canon_n6", ATTR + "<=6 bytes, state SkipValue(o) of the canonical family `k = v...` (XML mode) that is reachable by construction", ["attribute after a skipped unquoted value"], cost=7),
+    H("a11_skipeq_canon_n8", ATTR + "<=8 bytes, state SkipEqValue(o) of the canonical family `K K =...` (HTML mode, checks on) that is reachable by construction", ["attribute after a skipped duplicate"], cost=8),
     H("a11_done_n3", ATTR + "<=3 bytes, state Done", [], cost=1),
 ]
 C11_T = [
+    H("a11_skipvalue_n5", ATTR + "<=5 bytes, state SkipValue(o)", ["attribute after a skipped unquoted value"], cost=9, timeout_thorough=3600),
+    H("a11_skipeq_n8", ATTR + "<=8 bytes, state SkipEqValue(o)", ["attribute after a skipped duplicate"], cost=9, timeout_thorough=3600),
     H("a11_next_n7", ATTR + "<=7 bytes, state Next(o)", ["attribute with value", "duplicate reported"], cost=9, timeout_thorough=3600),
 ]
 
